@@ -286,5 +286,26 @@ def getSlice (c : Coll) (a b s : Option Int) : Except String (List Shape) :=
   | .ok (start, step, len) =>
     .ok ((List.range len).filterMap fun (k : Nat) => c.shapes[(start + (k : Int) * step).toNat]?)
 
+/-! ### `FeatureCollection.__eq__` (`collections.py:622-630`) -/
+
+/-- `list == list` on lists of shapes: same length and pairwise `x is y or x == y` -/
+def listEq : List Shape → List Shape → Bool
+  | [], [] => true
+  | x :: xs, y :: ys => sameOrEq x y && listEq xs ys
+  | _, _ => false
+
+/-- `FeatureCollection.__eq__(other)` for a collection `other`: its class is tested first -/
+def eqFC (a b : Coll) : Bool := b.tag == .fc && listEq a.shapes b.shapes
+
+/-- `Track.__eq__(other)` (`collections.py:674-682`) for a collection `other`: the same two tests with `Track` -/
+def eqTrack (a b : Coll) : Bool := b.tag == .track && listEq a.shapes b.shapes
+
+/-- `a == b` for two collections as the interpreter evaluates it: the `__eq__` of the left operand's class (neither
+    returns `NotImplemented`, so the reflected method is never tried) -/
+def eqColl (a b : Coll) : Bool :=
+  match a.tag with
+  | .fc => a.eqFC b
+  | .track => a.eqTrack b
+
 end Coll
 end GV
